@@ -35,6 +35,7 @@ def address_of(digits):
 
 class C02(PropBase):
     id = "C02"
+    shown_columns = ('ICAO',)
     corr_fields = ['df']
     lean_modules = ["SqModel.Props.C02", "SqModel.Proofs.BridgeBits"]
     extractors = ["trans_bits", "crc"]
